@@ -18,7 +18,8 @@ type Term struct {
 	args  []*Term
 	sort  string
 	name  string   // var name, or extra (e.g. "(_ extract 7 0)")
-	ival  *big.Int // int / bv constant
+	ival  *big.Int // int / bv constant; constant part of a lin term
+	coefs []*big.Int // lin: coefficient per arg
 	bval  bool
 	bound bool // mentions a quantifier-bound variable
 	// structural range knowledge for Int terms (nil = unknown)
@@ -76,6 +77,9 @@ func (ts *TermStore) intern(t *Term) *Term {
 	}
 	for _, a := range t.args {
 		fmt.Fprintf(&sb, ",%d", a.id)
+	}
+	for _, c := range t.coefs {
+		sb.WriteString("*" + c.String())
 	}
 	for _, a := range t.bvars {
 		fmt.Fprintf(&sb, ";%d", a.id)
@@ -386,6 +390,12 @@ func (ts *TermStore) Eq(a, b *Term) *Term {
 		if b.hi != nil && a.lo != nil && b.hi.Cmp(a.lo) < 0 {
 			return ts.False()
 		}
+		if a.op == "lin" || b.op == "lin" {
+			d := ts.Sub(a, b)
+			if d.isInt() {
+				return ts.Bool(d.ival.Sign() == 0)
+			}
+		}
 	}
 	if a.id > b.id {
 		a, b = b, a
@@ -396,97 +406,145 @@ func (ts *TermStore) Eq(a, b *Term) *Term {
 func (ts *TermStore) Ne(a, b *Term) *Term { return ts.Not(ts.Eq(a, b)) }
 
 // ---------- Int arithmetic ----------
+//
+// Sums are kept in a canonical linear form: op "lin" with atoms in args,
+// integer coefficients in coefs and the constant in ival. This makes
+// syntactic equality coincide with linear equality (x+1-1 is x), which the
+// select/store simplifier, the quantifier patterns and the range analysis rely on.
 
-func addRange(t, a, b *Term) {
-	if a.lo != nil && b.lo != nil {
-		t.lo = new(big.Int).Add(a.lo, b.lo)
+type linExpr struct {
+	atoms map[*Term]*big.Int
+	c     *big.Int
+}
+
+func (ts *TermStore) linOf(t *Term) linExpr {
+	le := linExpr{map[*Term]*big.Int{}, new(big.Int)}
+	switch t.op {
+	case "int":
+		le.c.Set(t.ival)
+	case "lin":
+		le.c.Set(t.ival)
+		for i, a := range t.args {
+			le.atoms[a] = new(big.Int).Set(t.coefs[i])
+		}
+	default:
+		le.atoms[t] = big.NewInt(1)
 	}
-	if a.hi != nil && b.hi != nil {
-		t.hi = new(big.Int).Add(a.hi, b.hi)
-	}
-	t.tz = a.tz
-	if b.tz < t.tz {
-		t.tz = b.tz
+	return le
+}
+
+func (le linExpr) addScaled(o linExpr, k *big.Int) {
+	le.c.Add(le.c, new(big.Int).Mul(o.c, k))
+	for a, c := range o.atoms {
+		v, ok := le.atoms[a]
+		if !ok {
+			v = new(big.Int)
+			le.atoms[a] = v
+		}
+		v.Add(v, new(big.Int).Mul(c, k))
+		if v.Sign() == 0 {
+			delete(le.atoms, a)
+		}
 	}
 }
 
-func (ts *TermStore) Add(a, b *Term) *Term {
-	if a.isInt() && b.isInt() {
-		return ts.BigInt(new(big.Int).Add(a.ival, b.ival))
+func (ts *TermStore) fromLin(le linExpr) *Term {
+	if len(le.atoms) == 0 {
+		return ts.BigInt(le.c)
 	}
+	atoms := make([]*Term, 0, len(le.atoms))
+	for a := range le.atoms {
+		atoms = append(atoms, a)
+	}
+	sort.Slice(atoms, func(i, j int) bool { return atoms[i].id < atoms[j].id })
+	if len(atoms) == 1 && le.c.Sign() == 0 && le.atoms[atoms[0]].Cmp(bigOne) == 0 {
+		return atoms[0]
+	}
+	coefs := make([]*big.Int, len(atoms))
+	for i, a := range atoms {
+		coefs[i] = le.atoms[a]
+	}
+	t := &Term{op: "lin", sort: SInt, args: atoms, coefs: coefs, ival: new(big.Int).Set(le.c)}
+	// range and trailing zeros
+	lo, hi := new(big.Int).Set(le.c), new(big.Int).Set(le.c)
+	okLo, okHi := true, true
+	tz := uint(200)
+	if le.c.Sign() != 0 {
+		tz = le.c.TrailingZeroBits()
+	}
+	for i, a := range atoms {
+		k := coefs[i]
+		var alo, ahi *big.Int
+		if k.Sign() > 0 {
+			alo, ahi = a.lo, a.hi
+		} else {
+			alo, ahi = a.hi, a.lo
+		}
+		if alo != nil && okLo {
+			lo.Add(lo, new(big.Int).Mul(k, alo))
+		} else {
+			okLo = false
+		}
+		if ahi != nil && okHi {
+			hi.Add(hi, new(big.Int).Mul(k, ahi))
+		} else {
+			okHi = false
+		}
+		z := k.TrailingZeroBits() + a.tz
+		if a.tz >= 200 {
+			z = 200
+		}
+		if z < tz {
+			tz = z
+		}
+	}
+	if okLo {
+		t.lo = lo
+	}
+	if okHi {
+		t.hi = hi
+	}
+	t.tz = tz
+	return ts.intern(t)
+}
+
+func (ts *TermStore) Add(a, b *Term) *Term {
 	if a.isInt() && a.ival.Sign() == 0 {
 		return b
 	}
 	if b.isInt() && b.ival.Sign() == 0 {
 		return a
 	}
-	// (x + c1) + c2
-	if b.isInt() && a.op == "+" && len(a.args) == 2 && a.args[1].isInt() {
-		return ts.Add(a.args[0], ts.BigInt(new(big.Int).Add(a.args[1].ival, b.ival)))
-	}
-	if a.isInt() {
-		a, b = b, a
-	}
-	t := &Term{op: "+", sort: SInt, args: []*Term{a, b}}
-	addRange(t, a, b)
-	return ts.intern(t)
+	le := ts.linOf(a)
+	le.addScaled(ts.linOf(b), bigOne)
+	return ts.fromLin(le)
 }
 
 func (ts *TermStore) Neg(a *Term) *Term { return ts.Sub(ts.Int(0), a) }
 
 func (ts *TermStore) Sub(a, b *Term) *Term {
-	if a.isInt() && b.isInt() {
-		return ts.BigInt(new(big.Int).Sub(a.ival, b.ival))
+	if b.isInt() && b.ival.Sign() == 0 {
+		return a
 	}
-	if b.isInt() {
-		return ts.Add(a, ts.BigInt(new(big.Int).Neg(b.ival)))
-	}
-	if a == b {
-		return ts.Int(0)
-	}
-	// (x + c) - x
-	if a.op == "+" && len(a.args) == 2 && a.args[0] == b {
-		return a.args[1]
-	}
-	t := &Term{op: "-", sort: SInt, args: []*Term{a, b}}
-	if a.lo != nil && b.hi != nil {
-		t.lo = new(big.Int).Sub(a.lo, b.hi)
-	}
-	if a.hi != nil && b.lo != nil {
-		t.hi = new(big.Int).Sub(a.hi, b.lo)
-	}
-	t.tz = a.tz
-	if b.tz < t.tz {
-		t.tz = b.tz
-	}
-	return ts.intern(t)
+	le := ts.linOf(a)
+	le.addScaled(ts.linOf(b), big.NewInt(-1))
+	return ts.fromLin(le)
 }
 
 func (ts *TermStore) Mul(a, b *Term) *Term {
-	if a.isInt() && b.isInt() {
-		return ts.BigInt(new(big.Int).Mul(a.ival, b.ival))
-	}
 	if a.isInt() {
 		a, b = b, a
 	}
 	if b.isInt() {
-		if b.ival.Sign() == 0 {
-			return b
-		}
-		if b.ival.Cmp(bigOne) == 0 {
-			return a
-		}
+		le := linExpr{map[*Term]*big.Int{}, new(big.Int)}
+		le.addScaled(ts.linOf(a), b.ival)
+		return ts.fromLin(le)
+	}
+	if a.id > b.id {
+		a, b = b, a
 	}
 	t := &Term{op: "*", sort: SInt, args: []*Term{a, b}}
-	if b.isInt() && b.ival.Sign() > 0 {
-		if a.lo != nil {
-			t.lo = new(big.Int).Mul(a.lo, b.ival)
-		}
-		if a.hi != nil {
-			t.hi = new(big.Int).Mul(a.hi, b.ival)
-		}
-		t.tz = a.tz + b.tz
-	} else if a.lo != nil && a.hi != nil && b.lo != nil && b.hi != nil {
+	if a.lo != nil && a.hi != nil && b.lo != nil && b.hi != nil {
 		c := []*big.Int{new(big.Int).Mul(a.lo, b.lo), new(big.Int).Mul(a.lo, b.hi), new(big.Int).Mul(a.hi, b.lo), new(big.Int).Mul(a.hi, b.hi)}
 		t.lo, t.hi = c[0], c[0]
 		for _, x := range c[1:] {
@@ -495,6 +553,17 @@ func (ts *TermStore) Mul(a, b *Term) *Term {
 		}
 	}
 	return ts.intern(t)
+}
+
+// linCoef returns the coefficient of atom v in t and t minus that part.
+func (ts *TermStore) linCoef(t, v *Term) (*big.Int, *Term) {
+	le := ts.linOf(t)
+	k, ok := le.atoms[v]
+	if !ok {
+		return new(big.Int), t
+	}
+	delete(le.atoms, v)
+	return k, ts.fromLin(le)
 }
 
 // Div is SMT-LIB integer division (floor for positive divisor). Callers that
@@ -589,6 +658,21 @@ func (ts *TermStore) cmpConst(op string, a, b *Term) (*Term, bool) {
 			return ts.False(), true
 		}
 	}
+	if a.op == "lin" || b.op == "lin" {
+		d := ts.Sub(a, b) // a - b  (op) 0
+		if d.hi != nil {
+			c := d.hi.Sign()
+			if op == "<" && c < 0 || op == "<=" && c <= 0 {
+				return ts.True(), true
+			}
+		}
+		if d.lo != nil {
+			c := d.lo.Sign()
+			if op == "<" && c >= 0 || op == "<=" && c > 0 {
+				return ts.False(), true
+			}
+		}
+	}
 	return nil, false
 }
 
@@ -656,30 +740,18 @@ func (ts *TermStore) distinctInts(i, j *Term) bool {
 		return i.ival.Cmp(j.ival) != 0
 	}
 	if i.sort == SInt {
-		// x+c1 vs x+c2
-		bi, ci := splitConst(i)
-		bj, cj := splitConst(j)
-		if bi == bj && ci.Cmp(cj) != 0 {
+		d := ts.Sub(i, j)
+		if d.isInt() {
+			return d.ival.Sign() != 0
+		}
+		if d.lo != nil && d.lo.Sign() > 0 {
 			return true
 		}
-		if i.hi != nil && j.lo != nil && i.hi.Cmp(j.lo) < 0 {
-			return true
-		}
-		if j.hi != nil && i.lo != nil && j.hi.Cmp(i.lo) < 0 {
+		if d.hi != nil && d.hi.Sign() < 0 {
 			return true
 		}
 	}
 	return false
-}
-
-func splitConst(t *Term) (*Term, *big.Int) {
-	if t.op == "+" && len(t.args) == 2 && t.args[1].isInt() {
-		return t.args[0], t.args[1].ival
-	}
-	if t.isInt() {
-		return nil, t.ival
-	}
-	return t, bigZero
 }
 
 func elemSort(arr string) string {
@@ -794,6 +866,63 @@ func (ts *TermStore) hasFreeBound(q *Term) bool {
 	return walk(q.args[0], own)
 }
 
+// QuantIdx builds a quantifier over the integer variable bv whose body reads
+// arrays at indices of the form bv+E. Such indices defeat E-matching (solvers
+// normalise sums), so the formula is re-expressed once per distinct E with the
+// substitution bv := j-E, which makes the index the bare variable j, and given
+// the pattern (select A j). The variants are equivalent; they are conjoined
+// (forall) or disjoined (exists).
+func (ts *TermStore) QuantIdx(forall bool, bv, rng, body *Term) *Term {
+	type occ struct{ arr, e *Term }
+	var occs []occ
+	seenE := map[int]bool{}
+	seen := map[int]bool{}
+	var walk func(t *Term)
+	walk = func(t *Term) {
+		if !t.bound || seen[t.id] {
+			return
+		}
+		seen[t.id] = true
+		if t.op == "select" && !t.args[0].bound && t.args[1].sort == SInt {
+			k, e := ts.linCoef(t.args[1], bv)
+			if k.Cmp(bigOne) == 0 && !e.bound && !seenE[e.id] {
+				seenE[e.id] = true
+				occs = append(occs, occ{t.args[0], e})
+			}
+		}
+		for _, a := range t.args {
+			walk(a)
+		}
+	}
+	walk(body)
+	mk := func(v, r, b *Term, pats ...*Term) *Term {
+		if forall {
+			return ts.Forall([]*Term{v}, ts.Implies(r, b), pats...)
+		}
+		return ts.Exists([]*Term{v}, ts.And(r, b))
+	}
+	if len(occs) == 0 {
+		return mk(bv, rng, body)
+	}
+	if len(occs) > 3 {
+		occs = occs[:3]
+	}
+	var vs []*Term
+	for _, o := range occs {
+		if o.e.isInt() && o.e.ival.Sign() == 0 {
+			vs = append(vs, mk(bv, rng, body, ts.Select(o.arr, bv)))
+			continue
+		}
+		j := ts.Bound("j", SInt)
+		m := map[*Term]*Term{bv: ts.Sub(j, o.e)}
+		vs = append(vs, mk(j, ts.Subst(rng, m), ts.Subst(body, m), ts.Select(o.arr, j)))
+	}
+	if forall {
+		return ts.And(vs...)
+	}
+	return ts.Or(vs...)
+}
+
 // ---------- substitution ----------
 
 func (ts *TermStore) Subst(t *Term, m map[*Term]*Term) *Term {
@@ -819,7 +948,17 @@ func (ts *TermStore) Subst(t *Term, m map[*Term]*Term) *Term {
 		}
 		r := t
 		if ch {
-			r = ts.rebuild(t, args)
+			if (t.op == "forall" || t.op == "exists") && len(t.pat) > 0 {
+				np := make([]*Term, len(t.pat))
+				for i, p := range t.pat {
+					np[i] = rec(p)
+				}
+				t2 := *t
+				t2.pat = np
+				r = ts.rebuild(&t2, args)
+			} else {
+				r = ts.rebuild(t, args)
+			}
 		}
 		cache[t.id] = r
 		return r
@@ -841,10 +980,12 @@ func (ts *TermStore) rebuild(t *Term, args []*Term) *Term {
 		return ts.Ite(args[0], args[1], args[2])
 	case "=":
 		return ts.Eq(args[0], args[1])
-	case "+":
-		return ts.Add(args[0], args[1])
-	case "-":
-		return ts.Sub(args[0], args[1])
+	case "lin":
+		le := linExpr{map[*Term]*big.Int{}, new(big.Int).Set(t.ival)}
+		for i, a := range args {
+			le.addScaled(ts.linOf(a), t.coefs[i])
+		}
+		return ts.fromLin(le)
 	case "*":
 		return ts.Mul(args[0], args[1])
 	case "div":
@@ -863,6 +1004,8 @@ func (ts *TermStore) rebuild(t *Term, args []*Term) *Term {
 		return ts.Forall(t.bvars, args[0], t.pat...)
 	case "exists":
 		return ts.Exists(t.bvars, args[0])
+	case "app":
+		return ts.App(t.name, t.sort, args...)
 	}
 	return ts.intern(&Term{op: t.op, sort: t.sort, name: t.name, args: args, ival: t.ival, bval: t.bval, bvars: t.bvars, pat: t.pat})
 }
@@ -911,6 +1054,8 @@ func (t *Term) write(sb *strings.Builder, named map[int]string) {
 		} else {
 			sb.WriteString("false")
 		}
+	case "raw":
+		sb.WriteString(t.name)
 	case "var", "bvar":
 		sb.WriteString(smtSym(t.name))
 	case "forall", "exists":
@@ -934,6 +1079,25 @@ func (t *Term) write(sb *strings.Builder, named map[int]string) {
 			sb.WriteString("))")
 		}
 		sb.WriteString(")")
+	case "lin":
+		sb.WriteString("(+")
+		if t.ival.Sign() != 0 {
+			sb.WriteString(" " + smtInt(t.ival))
+		}
+		for i, a := range t.args {
+			if t.coefs[i].Cmp(bigOne) == 0 {
+				sb.WriteByte(' ')
+				a.write(sb, named)
+			} else {
+				sb.WriteString(" (* " + smtInt(t.coefs[i]) + " ")
+				a.write(sb, named)
+				sb.WriteByte(')')
+			}
+		}
+		if t.ival.Sign() == 0 && len(t.args) == 1 {
+			sb.WriteString(" 0")
+		}
+		sb.WriteByte(')')
 	case "app":
 		if len(t.args) == 0 {
 			sb.WriteString(smtSym(t.name))
@@ -999,6 +1163,9 @@ func (s *Script) Render(logic string, getValues []*Term) string {
 	}
 	var sb strings.Builder
 	sb.WriteString("(set-option :produce-models true)\n")
+	if logic == "" {
+		logic = "ALL"
+	}
 	if logic != "" {
 		sb.WriteString("(set-logic " + logic + ")\n")
 	}
